@@ -1433,6 +1433,44 @@ class Scenarios(Gen):
             self.plan_faults(spec, nf=r.choice([1, 2]), include_prelude=False)
         return spec
 
+    def scn_pairkind(self, tf, tg, faults=False):
+        """two callers running *different* operations of the same module / class
+        family at the same time (one temporarily changes what the other reads)"""
+        r = self.rng
+        spec = self.new_spec("pairkind")
+        spec["focus"] = tf.kind + "|" + tg.kind
+        self.enable_adhoc(spec, self.adhoc_of_template(tf) + self.adhoc_of_template(tg))
+        pre = Builder(self)
+        targets = []
+        for ti, t in enumerate((tf, tg)):
+            b = Builder(self, parent=pre)
+            b.emit(t)
+            targets.append((ti, len(b.ops) - 1))
+            if t.cost < 150:
+                b.emit(t)
+                if r.random() < 0.5:
+                    targets.append((ti, len(b.ops) - 1))
+            spec["tasks"].append(b.ops)
+        spec["prelude"] = pre.ops
+        spec["schedule"]["first"] = r.randrange(2)
+        spec["schedule"]["style"] = "storm"
+        self.plan_storm(spec, targets, lo=6, hi=30)
+        for s_ in spec["schedule"]["switches"]:
+            if r.random() < 0.15:
+                s_["check"] = True          # constants are looked at while one is suspended
+        if faults:
+            self.plan_faults(spec, nf=1, include_prelude=False)
+        return spec
+
+    def pair_partner(self, tf, max_cost=400):
+        """another operation kind of the same group (module / suite / field family)"""
+        cands = [t for t in TEMPLATES if t.group == tf.group and t.kind != tf.kind and
+                 t.cost <= max_cost]
+        if not cands:
+            cands = [t for t in TEMPLATES if t.cost <= max_cost and t.kind != tf.kind and
+                     t.group.split(":")[0] == tf.group.split(":")[0]]
+        return self.rng.choice(cands) if cands else tf
+
     def scn_firstuse(self, tpl, faults=True):
         r = self.rng
         spec = self.new_spec("firstuse")
